@@ -156,12 +156,20 @@ pub fn create_canonical_request(
 
         // FIXME: check HOST, Content-Type, x-amz-security-token, x-amz-content-sha256
 
+        // a header with several values is one line: `name:value1,value2` (values in request order)
+        let mut last = "";
         for &(name, value) in signed_headers.as_ref() {
             if is_skipped_header(name) {
                 continue;
             }
-            ans.push_str(name);
-            ans.push(':');
+            if name == last {
+                ans.pop(); // the line feed after the previous value
+                ans.push(',');
+            } else {
+                last = name;
+                ans.push_str(name);
+                ans.push(':');
+            }
             push_collapsing_spaces(&mut ans, value.trim());
             ans.push('\n');
         }
@@ -171,10 +179,15 @@ pub fn create_canonical_request(
     {
         // <SignedHeaders>\n
         let mut first_flag = true;
+        let mut last = "";
         for &(name, _) in signed_headers.as_ref() {
             if is_skipped_header(name) {
                 continue;
             }
+            if name == last {
+                continue; // another value of the same header
+            }
+            last = name;
             if first_flag {
                 first_flag = false;
             } else {
@@ -368,12 +381,20 @@ pub fn create_presigned_canonical_request(
     {
         // <CanonicalHeaders>\n
 
+        // a header with several values is one line: `name:value1,value2` (values in request order)
+        let mut last = "";
         for &(name, value) in signed_headers.as_ref() {
             if is_skipped_header(name) {
                 continue;
             }
-            ans.push_str(name);
-            ans.push(':');
+            if name == last {
+                ans.pop(); // the line feed after the previous value
+                ans.push(',');
+            } else {
+                last = name;
+                ans.push_str(name);
+                ans.push(':');
+            }
             push_collapsing_spaces(&mut ans, value.trim());
             ans.push('\n');
         }
@@ -382,10 +403,15 @@ pub fn create_presigned_canonical_request(
     {
         // <SignedHeaders>\n
         let mut first_flag = true;
+        let mut last = "";
         for &(name, _) in signed_headers.as_ref() {
             if is_skipped_header(name) {
                 continue;
             }
+            if name == last {
+                continue; // another value of the same header
+            }
+            last = name;
             if first_flag {
                 first_flag = false;
             } else {
